@@ -131,6 +131,7 @@ where
     let mut known_hits: BTreeMap<String, (u64, String)> = BTreeMap::new();
     let mut all_viol_sigs: BTreeMap<String, u64> = BTreeMap::new();
     let mut foreign_sigs: BTreeMap<String, u64> = BTreeMap::new();
+    let mut batch_hash = 0xcbf29ce484222325u64;
     let mut expect = 0u64;
     for (i, out) in results.iter() {
         if *i != expect {
@@ -138,6 +139,7 @@ where
         }
         expect += 1;
         cases += 1;
+        crate::rng::fnv_add(&mut batch_hash, &out.ev_hash.to_le_bytes());
         evaluations += out.evaluations.max(1);
         if out.nontrivial {
             distinct.insert(out.ev_hash);
@@ -210,6 +212,7 @@ where
             "engine": cfg.engine,
             "components": cfg.components,
             "worker_threads": cfg.jobs,
+            "batch_event_log_hash": format!("{:016x}", batch_hash),
         },
         "assumptions": cfg.assumptions,
     });
